@@ -509,4 +509,347 @@ theorem walkUp_chain {p : NProg} (h : WFS p = true) (pos : Pos) :
         rw [hdc, ← sp.2.2.1] at hnd hhead ⊢
         exact ih _ (by omega) (by omega) sp.2.1 (sp.2.2.2 hlam.2) hnd hhead f (by omega)
 
+
+/-! ## parent chains -/
+
+/-- the chain seen from its own head -/
+theorem defChain_head {p : NProg} (h : WFS p = true) :
+    ∀ x, x < p.scopes.length → ∀ n, (defChain p p.fuel x).head? = some n →
+      defChain p p.fuel n = defChain p p.fuel x ∧ n ≤ x := by
+  intro x
+  induction x using Nat.strongRecOn with
+  | _ x ih =>
+    intro hx n hn
+    rw [defChain_eq h x hx] at hn ⊢
+    cases hk : p.kind x with
+    | module => simp [hk] at hn
+    | function =>
+      simp only [hk, List.head?_cons, Option.some.injEq] at hn ⊢
+      subst hn
+      rw [defChain_eq h x hx, hk]
+      exact ⟨rfl, Nat.le_refl _⟩
+    | klass =>
+      simp only [hk, List.head?_cons, Option.some.injEq] at hn ⊢
+      subst hn
+      rw [defChain_eq h x hx, hk]
+      exact ⟨rfl, Nat.le_refl _⟩
+    | lambda =>
+      have hlt := WFS.pscope_lt h (s := x) (by rw [hk]; simp)
+      simp only [hk] at hn ⊢
+      have := ih _ hlt.1 (by omega) n hn
+      exact ⟨this.1, by omega⟩
+    | comp =>
+      have hlt := WFS.pscope_lt h (s := x) (by rw [hk]; simp)
+      simp only [hk] at hn ⊢
+      have := ih _ hlt.1 (by omega) n hn
+      exact ⟨this.1, by omega⟩
+
+/-- iterating `parent()` from the name of a `def` / `class` / module context visits exactly the
+definitions of the chain, then the module -/
+theorem chainFrom_def {p : NProg} (h : WFS p = true) :
+    ∀ c, c < p.scopes.length → (p.isDef c = true ∨ p.kind c = .module) →
+      ∀ f, c < f → chainFrom p f c = defChain p p.fuel c ++ [0] := by
+  intro c
+  induction c using Nat.strongRecOn with
+  | _ c ih =>
+    intro hc hk f hf
+    cases f with
+    | zero => omega
+    | succ f =>
+      unfold chainFrom
+      rcases hk with hk | hk
+      · have hk' : p.kind c = .function ∨ p.kind c = .klass := by
+          unfold NProg.isDef at hk
+          cases hkk : p.kind c <;> simp [hkk] at hk ⊢
+        have hne : p.kind c ≠ .module := by rcases hk' with h1 | h1 <;> rw [h1] <;> simp
+        have hlt := WFS.pscope_lt h hne
+        have hpar : parentOfScope p c = some (defOrModule p (p.pscope c)) := by
+          unfold parentOfScope
+          rcases hk' with h1 | h1 <;> rw [h1]
+        rw [hpar]
+        simp only
+        have hch : defChain p p.fuel c = c :: defChain p p.fuel (p.pscope c) := by
+          rw [defChain_eq h c hc]
+          rcases hk' with h1 | h1 <;> rw [h1]
+        rw [hch]
+        unfold defOrModule
+        rw [defFrom_eq_head]
+        cases hh : (defChain p p.fuel (p.pscope c)).head? with
+        | none =>
+          simp only
+          have hnil : defChain p p.fuel (p.pscope c) = [] := by
+            cases hl : defChain p p.fuel (p.pscope c) with
+            | nil => rfl
+            | cons a r => simp [hl] at hh
+          rw [hnil]
+          have := ih 0 (by omega) (WFS.nonempty h) (Or.inr (WFS.kind0 h)) f (by omega)
+          rw [this, defChain_eq h 0 (WFS.nonempty h), WFS.kind0 h]
+          rfl
+        | some n =>
+          simp only
+          have hd := defChain_head h _ (by omega) n hh
+          have hdn := mem_defChain_isDef p p.fuel _ _ (List.mem_of_mem_head? hh)
+          have := ih n (by omega) (by omega) (Or.inl hdn) f (by omega)
+          rw [this, hd.1]
+          rfl
+      · have hz := WFS.module_zero h hc hk
+        subst hz
+        have hpar : parentOfScope p 0 = none := by unfold parentOfScope; rw [hk]
+        rw [hpar, defChain_eq h 0 hc, hk]
+        rfl
+
+/-! ## qualified names -/
+
+/-- `s` hangs below classes only, and each `def` / `class` on the way sits in the body (not the
+header) of the one above: `create_context(node) = parent_scope(node)` -/
+def classPath (p : NProg) : Nat → Nat → Bool
+  | 0, _ => false
+  | f + 1, s =>
+    nodeCtx p s == p.pscope s &&
+      (match p.kind (p.pscope s) with
+       | .module => true
+       | .klass => classPath p f (p.pscope s)
+       | _ => false)
+
+theorem ctxQual_eq_qualname (p : NProg) :
+    ∀ (f s : Nat), classPath p f s = true →
+      (p.kind s = .klass ∨ p.kind s = .function ∨ p.kind s = .lambda) →
+      ctxQual p f s = some (qualname p f s) := by
+  intro f
+  induction f with
+  | zero => intro s h; simp [classPath] at h
+  | succ f ih =>
+    intro s hp hk
+    unfold classPath at hp
+    simp only [Bool.and_eq_true, beq_iff_eq] at hp
+    obtain ⟨hctx, hrest⟩ := hp
+    unfold ctxQual qualname
+    have hq : ∀ (x : Nat), (p.kind x = .module ∨ p.kind x = .klass) → skipComps p p.fuel x = x := by
+      intro x hx
+      apply skipComps_noncomp
+      rcases hx with h1 | h1 <;> rw [h1] <;> simp
+    rcases hk with hk | hk | hk <;> rw [hk] <;> simp only [hctx] <;>
+    · cases hpk : p.kind (p.pscope s) with
+      | module =>
+        rw [hq _ (Or.inl hpk)]
+        simp [hpk]
+      | klass =>
+        rw [hpk] at hrest
+        simp only at hrest
+        rw [hq _ (Or.inr hpk)]
+        simp only [hpk]
+        rw [ih _ hrest (Or.inl hpk)]
+        rfl
+      | function => rw [hpk] at hrest; simp at hrest
+      | lambda => rw [hpk] at hrest; simp at hrest
+      | comp => rw [hpk] at hrest; simp at hrest
+
+theorem applyMapping_unmapped (mapping : List (String × String)) (l : List String)
+    (h : ∀ x, l.head? = some x → mapping.lookup x = none) : applyMapping mapping l = l := by
+  cases l with
+  | nil => rfl
+  | cons a r =>
+    have := h a rfl
+    simp only [applyMapping, this]
+
+/-- the components jedi produces are names of scopes of the table: never `<locals>` -/
+theorem ctxQual_names (p : NProg) :
+    ∀ (f s : Nat) (q : List String), ctxQual p f s = some q → ∀ x ∈ q, ∃ t, x = p.sname t := by
+  intro f
+  induction f with
+  | zero => intro s q h; simp [ctxQual] at h
+  | succ f ih =>
+    intro s q h x hx
+    unfold ctxQual at h
+    cases hk : p.kind s with
+    | module => simp [hk] at h; subst h; simp at hx
+    | comp => simp [hk] at h; subst h; simp at hx
+    | klass | function | lambda =>
+      simp only [hk] at h
+      cases hpk : p.kind (nodeCtx p s) with
+      | klass =>
+        simp only [hpk] at h
+        cases hq : ctxQual p f (nodeCtx p s) with
+        | none => simp [hq] at h
+        | some q' =>
+          simp only [hq, Option.map_some, Option.some.injEq] at h
+          subst h
+          rcases List.mem_append.mp hx with h1 | h1
+          · exact ih _ _ hq x h1
+          · simp only [List.mem_singleton] at h1; exact ⟨s, h1⟩
+      | module =>
+        simp only [hpk, Option.some.injEq] at h
+        subst h
+        simp only [List.mem_singleton] at hx
+        exact ⟨s, hx⟩
+      | function => simp [hpk] at h
+      | lambda => simp [hpk] at h
+      | comp => simp [hpk] at h
+
+
+deriving instance DecidableEq for Except
+
+/-! ## positional containment vs the chain -/
+
+theorem mem_defChain_le {p : NProg} (h : WFS p = true) :
+    ∀ x, x < p.scopes.length → ∀ n ∈ defChain p p.fuel x, n ≤ x := by
+  intro x
+  induction x using Nat.strongRecOn with
+  | _ x ih =>
+    intro hx n hn
+    rw [defChain_eq h x hx] at hn
+    cases hk : p.kind x with
+    | module => simp [hk] at hn
+    | function =>
+      have hlt := WFS.pscope_lt h (s := x) (by rw [hk]; simp)
+      simp only [hk, List.mem_cons] at hn
+      rcases hn with h1 | h1
+      · omega
+      · have := ih _ hlt.1 (by omega) n h1; omega
+    | klass =>
+      have hlt := WFS.pscope_lt h (s := x) (by rw [hk]; simp)
+      simp only [hk, List.mem_cons] at hn
+      rcases hn with h1 | h1
+      · omega
+      · have := ih _ hlt.1 (by omega) n h1; omega
+    | lambda =>
+      have hlt := WFS.pscope_lt h (s := x) (by rw [hk]; simp)
+      simp only [hk] at hn
+      have := ih _ hlt.1 (by omega) n hn; omega
+    | comp =>
+      have hlt := WFS.pscope_lt h (s := x) (by rw [hk]; simp)
+      simp only [hk] at hn
+      have := ih _ hlt.1 (by omega) n hn; omega
+
+/-- the chain is strictly decreasing in table order: innermost first -/
+theorem defChain_sorted {p : NProg} (h : WFS p = true) :
+    ∀ x, x < p.scopes.length → (defChain p p.fuel x).Pairwise (· > ·) := by
+  intro x
+  induction x using Nat.strongRecOn with
+  | _ x ih =>
+    intro hx
+    rw [defChain_eq h x hx]
+    cases hk : p.kind x with
+    | module => simp
+    | function =>
+      have hlt := WFS.pscope_lt h (s := x) (by rw [hk]; simp)
+      simp only [List.pairwise_cons]
+      refine ⟨?_, ih _ hlt.1 (by omega)⟩
+      intro n hn
+      have := mem_defChain_le h _ (by omega) n hn
+      omega
+    | klass =>
+      have hlt := WFS.pscope_lt h (s := x) (by rw [hk]; simp)
+      simp only [List.pairwise_cons]
+      refine ⟨?_, ih _ hlt.1 (by omega)⟩
+      intro n hn
+      have := mem_defChain_le h _ (by omega) n hn
+      omega
+    | lambda =>
+      have hlt := WFS.pscope_lt h (s := x) (by rw [hk]; simp)
+      exact ih _ hlt.1 (by omega)
+    | comp =>
+      have hlt := WFS.pscope_lt h (s := x) (by rw [hk]; simp)
+      exact ih _ hlt.1 (by omega)
+
+theorem enclosers_sorted (p : NProg) (pos : Pos) : (enclosers p pos).Pairwise (· < ·) := by
+  unfold enclosers
+  have h1 : (p.scopes.zipIdx.map (·.2)).Pairwise (· < ·) := by
+    rw [List.zipIdx_map_snd]
+    exact List.pairwise_lt_range'
+  exact h1.sublist ((List.filter_sublist (l := p.scopes.zipIdx)).map (·.2))
+
+/-- the tree nests like the text around leaf `l`: the `def` / `class` statements that contain
+`pos` are the definitions of the leaf's chain that start before `pos` (decidable; evaluated by
+the driver for every table and position) -/
+def TreeMatchesText (p : NProg) (pos : Pos) (l : Leaf) : Bool :=
+  let e := enclosers p pos
+  let c := defChain p p.fuel l.pscope
+  (List.range p.scopes.length).all fun s =>
+    (decide (s ∈ e)) == (decide (s ∈ c) && startLt p pos s)
+
+theorem mem_enclosers_lt (p : NProg) (pos : Pos) (s : Nat) (h : s ∈ enclosers p pos) :
+    s < p.scopes.length := by
+  unfold enclosers at h
+  simp only [List.mem_map, List.mem_filter] at h
+  obtain ⟨⟨sc, i⟩, ⟨hm, _⟩, rfl⟩ := h
+  rw [List.mem_zipIdx_iff_getElem?] at hm
+  simp only [Nat.zero_add] at hm
+  rcases List.getElem?_eq_some_iff.mp hm with ⟨hl, _⟩
+  simpa using hl
+
+theorem sorted_getLast {l : List Nat} (hs : l.Pairwise (· < ·)) {x : Nat} (hx : x ∈ l)
+    (hmax : ∀ y ∈ l, y ≤ x) : l.getLast? = some x := by
+  cases hl : l.getLast? with
+  | none =>
+    rw [List.getLast?_eq_none_iff] at hl
+    subst hl; simp at hx
+  | some z =>
+    obtain ⟨ys, hys⟩ := List.getLast?_eq_some_iff.mp hl
+    subst hys
+    have hz := hmax z (by simp)
+    rcases List.mem_append.mp hx with h1 | h1
+    · have := (List.pairwise_append.mp hs).2.2 x h1 z (by simp)
+      omega
+    · simp only [List.mem_singleton] at h1
+      rw [h1]
+
+/-- order-theoretic half of the positional statement: when the tree nests like the text, the
+innermost containing definition is the first definition of the chain that starts before `pos` -/
+theorem innermostBody_eq_firstDefBefore {p : NProg} (h : WFS p = true) (pos : Pos) (l : Leaf)
+    (hl : l.pscope < p.scopes.length) (hm : TreeMatchesText p pos l = true) :
+    innermostBody p pos = firstDefBefore p pos (defChain p p.fuel l.pscope) := by
+  have hiff : ∀ s, s ∈ enclosers p pos ↔
+      (s ∈ defChain p p.fuel l.pscope ∧ startLt p pos s = true) := by
+    intro s
+    unfold TreeMatchesText at hm
+    simp only [List.all_eq_true, List.mem_range, beq_iff_eq] at hm
+    by_cases hs : s < p.scopes.length
+    · have := hm s hs
+      constructor
+      · intro h1
+        have h2 : decide (s ∈ enclosers p pos) = true := by simpa using h1
+        rw [h2] at this
+        simpa using this.symm
+      · intro h1
+        have h2 : (decide (s ∈ defChain p p.fuel l.pscope) && startLt p pos s) = true := by
+          simp [h1.1, h1.2]
+        rw [h2] at this
+        simpa using this
+    · constructor
+      · intro h1; exact absurd (mem_enclosers_lt p pos s h1) hs
+      · intro h1
+        have := mem_defChain_le h _ hl s h1.1
+        omega
+  unfold innermostBody firstDefBefore
+  cases hf : (defChain p p.fuel l.pscope).find? (startLt p pos) with
+  | none =>
+    have hnil : enclosers p pos = [] := by
+      cases he : enclosers p pos with
+      | nil => rfl
+      | cons a r =>
+        have ha : a ∈ enclosers p pos := by rw [he]; simp
+        have := (hiff a).mp ha
+        rw [List.find?_eq_none] at hf
+        exact absurd this.2 (by simpa using hf a this.1)
+    rw [hnil]; rfl
+  | some x =>
+    obtain ⟨hpx, as, bs, hC, has⟩ := List.find?_eq_some_iff_append.mp hf
+    have hxmem : x ∈ defChain p p.fuel l.pscope := by rw [hC]; simp
+    have hxE : x ∈ enclosers p pos := (hiff x).mpr ⟨hxmem, hpx⟩
+    have hsorted := defChain_sorted h _ hl
+    rw [hC] at hsorted
+    have hmax : ∀ y ∈ enclosers p pos, y ≤ x := by
+      intro y hy
+      obtain ⟨hyC, hyP⟩ := (hiff y).mp hy
+      rw [hC] at hyC
+      rcases List.mem_append.mp hyC with h1 | h1
+      · have := has y h1
+        simp [hyP] at this
+      · rcases List.mem_cons.mp h1 with h2 | h2
+        · omega
+        · have := (List.pairwise_cons.mp (List.pairwise_append.mp hsorted).2.1).1 y h2
+          omega
+    rw [sorted_getLast (enclosers_sorted p pos) hxE hmax]
+
 end JediModel.Nesting
